@@ -264,6 +264,57 @@ $sends.setdefault($nm, []).append($repl2.map_distributed_send($sn))
             "receive nodes are not keyed by the name assigned to the received array")
 
 
+def r_forwarded(c):
+    """an array that is received and sent on unchanged: one generated name would be
+    both a receive name and a part output (which the verifier asserts never happens)"""
+    m = c.model
+    f = m.func(D + "partition.find_distributed_partition")
+    name = "distributed.partition.find_distributed_partition"
+    loops = find(f, """
+for $a in $sent:
+    $pid = $s2p[$a]
+    $n = $$namer
+    $s2n[$a] = $n
+    $outs[$pid][$n] = $a
+""")
+    # of the loops of that shape, the one over the arrays that sends send
+    loops = [l for l in loops if has(
+        f, f"{l['$sent']} = FrozenOrderedSet(($n.data for $n in "
+           "$g.local_send_id_to_send_node.values()))")]
+    if len(loops) != 1:
+        raise AnalysisError("anchor vanished: naming loop over the sent arrays")
+    e = loops[0]
+    sent, a = e["$sent"], e["$a"]
+    namer = [st for st in e["@node"].body if isinstance(st, (ast.Assign, ast.AnnAssign))
+             and ast.unparse(st.targets[0] if isinstance(st, ast.Assign) else st.target)
+             == e["$n"]][0].value
+    recvd = find(f, "$r2n = {$x: $gen($x) for $x in $recvd}")
+    if len(recvd) != 1:
+        raise AnalysisError("anchor vanished: naming of the received arrays")
+    gen, rv = recvd[0]["$gen"], recvd[0]["$recvd"]
+    # the clash is possible iff a received array can reach the memoising namer
+    # that also named the receives; accepted ways out: the iterated collection
+    # excludes received arrays, the loop skips / rejects them, or they get a
+    # fresh name
+    uses_shared = any(isinstance(x, ast.Call) and ast.unparse(x.func) == gen
+                      for x in ast.walk(namer))
+    guarded = (isinstance(namer, ast.IfExp) and (
+        (ast.unparse(namer.test) == f"{a} in {rv}" and not any(
+            isinstance(x, ast.Call) and ast.unparse(x.func) == gen for x in ast.walk(namer.body)))
+        or (ast.unparse(namer.test) == f"{a} not in {rv}" and not any(
+            isinstance(x, ast.Call) and ast.unparse(x.func) == gen
+            for x in ast.walk(namer.orelse)))))
+    excluded = has(f, f"{sent} = $$x - {rv}") or has(f, f"{sent} = {sent} - {rv}") \
+        or any(isinstance(i, ast.If) and has(i.test, f"{a} in {rv}") for i in e["@node"].body)
+    c.check((not uses_shared) or guarded or excluded, "R09-NAMES", name,
+            "sent-and-received-names-disjoint", m.loc(m.module_of(f), e["@node"]),
+            f"sent arrays and received arrays are named by the same memoising generator "
+            f"({gen}) and nothing keeps a received array out of `{sent}`: a rank that "
+            "forwards a received array unchanged gets a part whose output name equals one "
+            "of its receive names, which verify_distributed_partition rejects "
+            "(AssertionError) although the computation is correct")
+
+
 def r_placement(c):
     """where stored arrays are computed, and how the verifier resolves part inputs"""
     m = c.model
@@ -333,7 +384,7 @@ if $d is None:
 
 SPEC = Spec(
     prop="C09",
-    rules=[r_collectives, r_nocomm, r_tags, r_names, r_placement],
+    rules=[r_collectives, r_nocomm, r_tags, r_names, r_forwarded, r_placement],
     floors={"R09-COLLECTIVES": 8, "R09-NOCOMM": 7, "R09-TAGS": 5, "R09-NAMES": 6,
             "R09-PLACEMENT": 4},
     explanation=(
